@@ -689,7 +689,8 @@ class Interp:
         local = fn.get("resolved_local", fn.get("local")) and path in self.f.bodies
         if fn.get("resolved_kind") == "Virtual":
             local = False   # dynamic dispatch: the trait's default body is not what runs
-        if local and not self.inline_derived and (self.f.bodies[path].get("impl") or {}).get("derived"):
+        if local and not self.inline_derived and (self.f.bodies[path].get("impl") or {}).get("derived") \
+                and (self.f.bodies[path].get("impl") or {}).get("trait") != "std::default::Default":
             # compiler-derived trait impls (Clone, PartialEq, Debug ...) are kept as opaque calls
             local = False
         forced = local and self.force_inline is not None and self.force_inline(self, st, path, args)
@@ -763,6 +764,14 @@ class Interp:
 
     # fork helper on an Option/Result-like value: returns [(state, variant, payload)]
     def cases(self, st, v, adt):
+        # `opt.is_none()` takes `&self`: the case split is on the value behind the reference
+        for _ in range(4):
+            if v[0] == "ref":
+                v = self.load_ptr(st, v[1])
+            elif v[0] == "rref":
+                v = v[1]
+            else:
+                break
         if v[0] == "adt":
             return [(st, v[2], v[3])]
         if v in st.known:
@@ -841,6 +850,17 @@ class Interp:
             lit, other = (b, a) if self.is_closed_literal(b) and b[0] == "adt" else ((a, b) if self.is_closed_literal(a) and a[0] == "adt" else (None, None))
             if lit is not None and not self.is_closed_literal(other):
                 return [(s_, ("const", "bool", ok if nm == "eq" else not ok)) for s_, ok in self.literal_eq(st, other, lit)]
+        if tr == "std::default::Default" and nm == "default" and not args and not fn.get("resolved_local"):
+            # the default of the std types the crate's data is made of
+            sty = self.subst(self.f.ty_s(fn["args"][0])) if fn.get("args") else ""
+            if sty.startswith("std::option::Option<"):
+                return [(st, self.mk(O, "None"))]
+            if sty.startswith("std::collections::BTreeMap<"):
+                return [(st, ("call", "std::collections::BTreeMap::<K, V>::new", ()))]
+            if sty.startswith("std::vec::Vec<"):
+                return [(st, ("call", "std::vec::Vec::<T>::new", ()))]
+            if sty == "bool":
+                return [(st, ("const", "bool", False))]
         if tr == "std::clone::Clone" and nm == "clone":
             return [(st, self.deref(st, args[0]))]
         if tr == "std::borrow::ToOwned" and nm == "to_owned":
@@ -979,22 +999,35 @@ class Interp:
             rm = self.resolve(st, self.load_ptr(st, mptr))
             test = ("call", "std::collections::BTreeMap::<K, V, A>::contains_key", (rm, self.resolve(st, key)))
             out = []
-            s_has = st.fork()
-            s_has.conds.append((test, "val", "not:0"))
-            out.append((s_has, ("sym", "entry_value")))
-            s_new = st.fork()
-            s_new.conds.append((test, "val", 0))
-            if nm == "or_insert_with":
-                vals = self.apply(s_new, args[1], [], depth + 1, stack)
-            elif nm == "or_insert":
-                vals = [(s_new, args[1])]
+            hits = self.map_lookup(st, rm, key)
+            if hits is not None:
+                # the map's history is known: present / absent is decided (or forks on key equality)
+                news = []
+                for s2, hv in hits:
+                    if hv is not None:
+                        out.append((s2, ("ref", s2.alloc(hv))))
+                    else:
+                        news.append(s2)
             else:
-                vals = [(s_new, ("call", "Default::default", ()))]
-            for s3, val in vals:
-                old = self.load_ptr(s3, mptr)
-                s3.events.append(("call", "std::collections::BTreeMap::<K, V, A>::insert", (self.resolve(s3, old), self.resolve(s3, key), self.resolve(s3, val))))
-                self.store_ptr(s3, mptr, ("op", "insert", (old, key, val)))
-                out.append((s3, ("ref", s3.alloc(val))))
+                s_has = st.fork()
+                s_has.conds.append((test, "val", "not:0"))
+                out.append((s_has, ("sym", "entry_value")))
+                s_new = st.fork()
+                s_new.conds.append((test, "val", 0))
+                news = [s_new]
+            for s_new in news:
+              if True:
+                if nm == "or_insert_with":
+                    vals = self.apply(s_new, args[1], [], depth + 1, stack)
+                elif nm == "or_insert":
+                    vals = [(s_new, args[1])]
+                else:
+                    vals = [(s_new, ("call", "Default::default", ()))]
+                for s3, val in vals:
+                    old = self.load_ptr(s3, mptr)
+                    s3.events.append(("call", "std::collections::BTreeMap::<K, V, A>::insert", (self.resolve(s3, old), self.resolve(s3, key), self.resolve(s3, val))))
+                    self.store_ptr(s3, mptr, ("op", "insert", (old, key, val)))
+                    out.append((s3, ("ref", s3.alloc(val))))
             return out
         if p.startswith("std::collections::BTreeMap::<") and nm == "entry" and len(args) == 2 and args[0][0] == "ref":
             # remember which map place an entry belongs to (used when the entry is consumed by or_insert_with)
@@ -1097,6 +1130,13 @@ class Interp:
                     elif nm == "unwrap_or":
                         out.append((s2, pl[0] if ok else args[1]))
                 return out
+        if p.startswith("std::collections::BTreeMap::<") and nm in ("contains_key", "get") and len(args) == 2:
+            mv = self.deref(st, args[0]) if args[0][0] == "ref" else args[0]
+            hits = self.map_lookup(st, self.resolve(st, mv), args[1])
+            if hits is not None:
+                if nm == "contains_key":
+                    return [(s2, ("const", "bool", hv is not None)) for s2, hv in hits]
+                return [(s2, self.mk(O, "Some", ("ref", s2.alloc(hv))) if hv is not None else self.mk(O, "None")) for s2, hv in hits]
         # growing a collection through a known &mut place: keep the collection's history as a term
         if (p.startswith("std::vec::Vec::<") and nm == "push" and len(args) == 2) or \
            (p.startswith("std::collections::BTreeMap::<") and nm == "insert" and len(args) == 3):
@@ -1146,6 +1186,38 @@ class Interp:
             radt = (rty or {}).get("adt")
             if radt in (R, O):
                 return self.try_fold(st, args[0], ("tup", ()), args[1], radt, depth, stack, unit=True)
+        return None
+
+    def map_lookup(self, st, m, key):
+        """lookup in a map whose whole history is known (`BTreeMap::new()` followed by inserts):
+        -> [(state, value or None)], or None when the map is not of that form.  Keys that cannot be compared
+        syntactically fork on a `key_eq` condition."""
+        from norm import norm as _norm, show as _show, short_callee as _sc
+        if m[0] == "call" and not m[2] and _sc(m[1]).endswith(("BTreeMap::new", "BTreeMap::default")):
+            return [(st, None)]
+        if m[0] == "op" and m[1] == "insert" and len(m[2]) == 3:
+            base, k, v = m[2]
+            a, b = _show(_norm(self.resolve(st, k))), _show(_norm(self.resolve(st, key)))
+            if a == b:
+                return [(st, v)]
+            lit = lambda x: len(x) >= 2 and x[0] == "'" and x[-1] == "'"
+            if lit(a) and lit(b):
+                return self.map_lookup(st, base, key)
+            rest = self.map_lookup(st, base, key)
+            if rest is None:
+                return None
+            subj = ("op", "key_eq", tuple(sorted((self.resolve(st, k), self.resolve(st, key)), key=repr)))
+            if subj in st.known:
+                return [(st, v)] if st.known[subj] != 0 else rest
+            s1 = st.fork()
+            s1.conds.append((subj, "val", "not:0"))
+            s1.known[subj] = "other"
+            out = [(s1, v)]
+            s2 = st.fork()
+            s2.conds.append((subj, "val", 0))
+            s2.known[subj] = 0
+            r2 = self.map_lookup(s2, base, key)
+            return out + r2
         return None
 
     def branch_bool(self, st, v):
